@@ -136,10 +136,64 @@ def fanout_session(rng):
     return s.ops
 
 
+def chain_session(rng):
+    """one connection holds three to five filters whose ssids fold to the same 32-bit XOR (w/w/ for every word w,
+    rotations of one level list): the per-connection counters chain them in one bucket; they are removed in every
+    order (middle first, head first, tail first) with publishes in between; a second connection holds the same
+    filters throughout. Also: a shortcut linked, used, linked again to another channel and used again."""
+    s = Session(rng)
+    s.key("KA", R | W)
+    s.conn("c1")
+    s.conn("c2")
+    fam = rng.choice([
+        [w + b"/" + w + b"/" for w in WORDS],
+        [b"a/b/x/", b"b/x/a/", b"x/a/b/", b"x/b/a/"],
+        [b"a/", b"a/b/b/", b"a/x/x/", b"a/y/y/"],
+    ])
+    fam = rng.sample(fam, rng.choice([3, 3, 4])) if len(fam) > 3 else fam
+    for f in fam:
+        s.sub("c1", "KA", f)
+        if rng.randrange(2):
+            s.sub("c2", "KA", f)
+    if rng.randrange(2):
+        s.sub("c1", "KA", fam[0])                          # a second reference on the head of the chain
+    order = list(fam)
+    rng.shuffle(order)
+    if rng.randrange(2):
+        order = [fam[1]] + [f for f in order if f != fam[1]]    # the middle of the chain first
+    for f in order:
+        s.unsub("c1", "KA", f)
+        for g in fam:
+            s.pub("c2", "KA", g, rbytes(rng, 1))
+        if rng.randrange(3) == 0:
+            s.dump()
+    if rng.randrange(2):
+        s.unsub("c1", "KA", fam[0])
+        s.pub("c2", "KA", fam[0], rbytes(rng, 1))
+    # re-linked shortcut
+    a, b = chan(rng), chan(rng)
+    s.sub("c2", "KA", a)
+    s.sub("c1", "KA", b)
+    nm = rng.choice([b"x", b"q7"])
+    s.link("c1", nm, "KA", a, False)
+    s.pubalias("c1", nm, rbytes(rng, 2))
+    s.link("c1", nm, "KA", b, rng.randrange(2) == 1)
+    s.pubalias("c1", nm, rbytes(rng, 2))
+    s.pubalias("c1", nm, rbytes(rng, 2))
+    s.dump()
+    s.close("c1")
+    for g in fam[:2]:
+        s.pub("c2", "KA", g, rbytes(rng, 1))
+    s.dump()
+    return s.ops
+
+
 def gen(rng, tier):
     ops = []
     for _ in range(budget(tier, 8, 400)):
         ops += fanout_session(rng)
+    for _ in range(budget(tier, 6, 300)):
+        ops += chain_session(rng)
     for _ in range(budget(tier, 60, 4000)):
         ops += session(rng)
     return ops
